@@ -83,6 +83,10 @@ func VerifC09_Edit() {
 	if err != nil {
 		verifCover("refused")
 		verifAssert(after.MaxSupply == max && after.Mintable == wasMintable && after.Owner == tok.Owner, "refused edit changes nothing")
+		// liveness: the owner's edit is refused only when the requested cap is below what circulates or below
+		// the recorded initial supply
+		capTooLow := newMax > 0 && (verifMul(new(big.Int).SetUint64(newMax), prec).Cmp(supply.BigInt()) < 0 || newMax < initial)
+		verifAssert(!isOwner || capTooLow, "the owner's edit is refused only for a cap below the circulating or the initial supply")
 		return
 	}
 	verifCover("edited")
